@@ -176,7 +176,7 @@ where
  *
  * This trait is sealed and cannot be implemented for types outside this crate.
  */
-pub trait Similar<Rhs: ?Sized = Self>: private::Sealed {
+pub trait Similar<Rhs: ?Sized = Self>: private::Sealed<Rhs> {
     /**
      * Tests if two values are similar. This is a looser comparison than [PartialEq],
      * but anything which is PartialEq is also similar.
